@@ -4,7 +4,7 @@
 REPO=${1:-/repo}
 OUT=$(mktemp -d /tmp/baseline.XXXXXX)
 cd $REPO || exit 2
-OPENMDAO_REPORTS=0 /venv/bin/python -m pytest -ra -q -p no:cacheprovider --timeout=900 --continue-on-collection-errors \
+PYTHONPATH=$REPO OPENMDAO_REPORTS=0 /venv/bin/python -m pytest -ra -q -p no:cacheprovider --timeout=900 --continue-on-collection-errors \
    --junitxml=$OUT/junit.xml > $OUT/log 2>&1
 /venv/bin/python - "$OUT/junit.xml" <<'EOF'
 import json, sys, xml.etree.ElementTree as ET
